@@ -856,4 +856,8 @@ EXTRA_CHECKS = list(globals().get("EXTRA_CHECKS", [])) + [extra_offset_sequences
 # effect obligations (AST, complete for what they state): no memoising decorator, no module-level state - see specs/common.py
 from .common import no_hidden_state_check as _no_hidden_state_check  # noqa: E402
 EXTRA_CHECKS = list(globals().get("EXTRA_CHECKS", [])) + [_no_hidden_state_check(
-    ["pydsdl._serializable._array", "pydsdl._serializable._composite", "pydsdl._data_schema_builder"], "the offset iterators and the schema builder")]
+    ["pydsdl._serializable._array", "pydsdl._serializable._composite", "pydsdl._data_schema_builder",
+     # the in-language intrinsics _bit_length_ / _extent_ / _offset_ live in SerializableType._attribute,
+     # CompositeType._attribute and DataTypeBuilder.resolve_top_level_identifier
+     "pydsdl._serializable._serializable", "pydsdl._data_type_builder"],
+    "the offset iterators, the layout intrinsics and the schema builder")]
